@@ -549,6 +549,62 @@ Definition empty_comment_text : text := map N.of_nat [40; 42; 32; 101; 109; 112;
 Theorem lex_empty_comment rest : lex_one (empty_comment_text ++ rest) = Some (11, KComment).
 Proof. vm_compute. reflexivity. Qed.
 
+Theorem lex_crlf rest : lex_one (13%N :: 10%N :: rest) = Some (2, KNewline).
+Proof. vm_compute. reflexivity. Qed.
+
+(* any block comment: "( *", a body over which the comment expression's automaton runs without closing, closed by its last two
+   characters (so a body ending in '*' before the closing "* )" is none: the recorded finding about "** )") *)
+Definition comment_ok (w : text) : bool :=
+  match w with
+  | 40%N :: 42%N :: b => match comment_body false b 2 with Some n => Nat.eqb n (List.length w) | None => false end
+  | _ => false
+  end.
+
+Lemma comment_body_app rest : forall b st n m, comment_body st b n = Some m -> comment_body st (b ++ rest) n = Some m.
+Proof.
+  induction b as [|c b IH]; intros st n m H; [discriminate H|]. cbn [app comment_body] in *.
+  destruct st; [destruct (c =? 41)%N; [exact H | apply IH; exact H] | destruct (c =? 42)%N; apply IH; exact H].
+Qed.
+
+Lemma lits_at_comment r : Forall (fun c => clen c <= 1) (map (lit_candidate (40%N :: 42%N :: r)) literal_tokens).
+Proof. unfold literal_tokens. cbn [map]. repeat (constructor; [vm_compute; lia|]). constructor. Qed.
+
+Lemma others_none_paren r : others_q 40%N r 4 = repeat None 16.
+Proof. reflexivity. Qed.
+
+Theorem lex_comment w rest : comment_ok w = true -> lex_one (w ++ rest) = Some (List.length w, KComment).
+Proof.
+  unfold comment_ok. destruct w as [|c0 [|c1 b]]; [discriminate| |].
+  { intro H. exfalso. destruct c0 as [|p0]; [discriminate H|]. repeat (destruct p0 as [p0|p0|]; try discriminate H). }
+  intro H.
+  destruct c0 as [|p0]; [discriminate H|]. repeat (destruct p0 as [p0|p0|]; try discriminate H).
+  destruct c1 as [|p1]; [discriminate H|]. repeat (destruct p1 as [p1|p1|]; try discriminate H).
+  destruct (comment_body false b 2) as [n|] eqn:Eb; [|discriminate H]. apply Nat.eqb_eq in H. subst n.
+  pose proof (comment_body_app rest b false 2 _ Eb) as Eb'.
+  set (w := 40%N :: 42%N :: b) in *.
+  assert (Hm : m_comment (w ++ rest) = Some (List.length w)) by (unfold w; cbn [app m_comment]; exact Eb').
+  assert (Hlen : 4 <= List.length w).
+  { unfold w. destruct b as [|x [|y b']]; [discriminate Eb | |cbn; lia].
+    cbn [comment_body] in Eb. destruct (x =? 42)%N; discriminate Eb. }
+  pose proof (others_none_paren (42%N :: b ++ rest)) as Ho. unfold others_q in Ho. rewrite map_app in Ho.
+  change (repeat None 16) with (@repeat (option nat) None 4 ++ repeat None 12) in Ho.
+  apply app_split_len in Ho; [|reflexivity]. destruct Ho as [Ha Hb].
+  apply (lex_one_pick (w ++ rest) (List.length w) KComment
+           (map (lit_candidate (w ++ rest)) literal_tokens ++ repeat None 4) (repeat None 12)).
+  - unfold unclosed_comment. unfold w at 1. cbn [app]. fold w. change (40%N :: 42%N :: b ++ rest) with (w ++ rest). rewrite Hm. reflexivity.
+  - lia.
+  - assert (Hmm : matchers = firstn 4 matchers ++ (m_comment, KComment) :: skipn 5 matchers) by reflexivity.
+    rewrite Hmm at 1. rewrite map_app. cbn [map].
+    change (w ++ rest) with (40%N :: 42%N :: b ++ rest) at 2 4.
+    rewrite (mcand_none_of _ (firstn 4 matchers) Ha), (mcand_none_of _ (skipn 5 matchers) Hb).
+    unfold mcand at 1. cbn [fst snd]. change (40%N :: 42%N :: b ++ rest) with (w ++ rest). rewrite Hm.
+    destruct (List.length w) as [|n]; [lia|]. rewrite <- app_assoc. reflexivity.
+  - apply Forall_app. split; [|apply clen_none_repeat; lia].
+    pose proof (lits_at_comment (b ++ rest)) as Hl. change (40%N :: 42%N :: b ++ rest) with (w ++ rest) in Hl.
+    eapply Forall_impl; [|exact Hl]. intros c Hc. cbn beta in Hc. lia.
+  - apply clen_none_repeat_le.
+Qed.
+
 (* ---- symbols: every pattern without identifier characters, followed by a blank, a line break, or nothing ---- *)
 Definition sym_then (cs : text) (row : list N * bool * tok_kind) : Prop :=
   symbolic (pat row) = true -> forall rest, lex_one (pat row ++ cs ++ rest) = Some (List.length (pat row), snd row).
@@ -658,8 +714,8 @@ Definition tok_sep (t : token) (rest : text) : bool :=
   else if string_ok 39 w then kind_eqb KSingleByteString k
   else if string_ok 34 w then kind_eqb KDoubleByteString k
   else if match w with [] => false | _ => forallb is_blank w end then nnb_b rest && kind_eqb KWhitespace k
-  else if text_eqb w [10%N] then kind_eqb KNewline k
-  else if text_eqb w empty_comment_text then kind_eqb KComment k
+  else if text_eqb w [10%N] || text_eqb w [13%N; 10%N] then kind_eqb KNewline k
+  else if comment_ok w then kind_eqb KComment k
   else sym_sep w k rest.
 Fixpoint sep_ok (toks : list token) : bool :=
   match toks with [] => true | t :: r => tok_sep t (spell_all r) && sep_ok r end.
@@ -758,10 +814,12 @@ Proof.
     assert (Hne : w <> []) by (destruct w; [discriminate Eb | discriminate]).
     assert (Hd : forallb is_blank w = true) by (destruct w; [discriminate Eb | exact Eb]).
     split; [exact Hne|]. rewrite (lex_blanks w rest Hne Hd (nnb_sound rest Hn)), Hk. reflexivity. }
-  destruct (text_eqb w [10%N]) eqn:En.
-  { intro Hk. apply keq in Hk. apply text_eqb_true in En. rewrite En. split; [discriminate|]. cbn [app]. rewrite lex_newline, Hk. reflexivity. }
-  destruct (text_eqb w empty_comment_text) eqn:Ec.
-  { intro Hk. apply keq in Hk. apply text_eqb_true in Ec. rewrite Ec. split; [discriminate|]. rewrite lex_empty_comment, Hk. reflexivity. }
+  destruct (text_eqb w [10%N] || text_eqb w [13%N; 10%N]) eqn:En.
+  { intro Hk. apply keq in Hk. apply orb_true_iff in En. destruct En as [En|En]; apply text_eqb_true in En; rewrite En; (split; [discriminate|]); cbn [app].
+    - rewrite lex_newline, Hk. reflexivity.
+    - rewrite lex_crlf, Hk. reflexivity. }
+  destruct (comment_ok w) eqn:Ec.
+  { intro Hk. apply keq in Hk. split; [destruct w; [discriminate Ec | discriminate]|]. rewrite (lex_comment w rest Ec), Hk. reflexivity. }
   intro H. assert (Hne : w <> []).
   { intro E. rewrite E in H. unfold sym_sep in H. destruct (find (fun row => text_eqb (pat row) []) literal_tokens) as [row|] eqn:Ef; [|discriminate].
     apply find_in in Ef. destruct Ef as [_ Hp]. apply text_eqb_true in Hp. apply andb_true_iff in H. destruct H as [H _]. apply andb_true_iff in H. destruct H as [Hs _].
